@@ -38,6 +38,7 @@ type outcome struct {
 	wf     string // well-formedness oracle result (ok only)
 	events []string
 	msg    string
+	addr   string // a string result or printed line that contains a memory address
 }
 
 func (o outcome) line() string {
@@ -147,6 +148,7 @@ func runBackend(b backend, eng *engine, d ast.Expr, vals map[string]*val.Val, wa
 		return
 	}
 	o.class = "ok"
+	o.addr = addrInText(res, out)
 	o.wf = safeWf(res, want)
 	if o.wf == "" {
 		func() {
@@ -266,10 +268,16 @@ func evalCases(eng *engine, vars []envVar, vals map[string]*val.Val, src string,
 	if perr != nil {
 		return []Case{{Human: human, Want: "syntax-error", Tags: []string{"prog:syntax-error", tag}}}
 	}
+	parsedBefore := encExpr(parsed)
 	d := trans.Desugar(parsed)
 	plain := encExpr(d)
 	ty, cerr := checkExpr(eng, vars, d)
 	cc := Case{Human: "check " + human, Tags: []string{tag}}
+	// the parsed tree must be left untouched by desugaring AND by what is done to its result
+	// (the checker annotates the desugared tree in place: aliasing would show here)
+	if encExpr(parsed) != parsedBefore {
+		cc.Oracle, cc.OracleID = "type-checking the desugared tree changed the original parsed tree (the desugared tree shares nodes with it)", "desugar-aliases-input"
+	}
 	cc.Req = sxList("check", eng.funsx, encTVars(vars), plain)
 	cc.Nontriv = true
 	if cerr != nil {
@@ -298,43 +306,67 @@ func evalCases(eng *engine, vars []envVar, vals map[string]*val.Val, src string,
 	} else {
 		rc.Tags = append(rc.Tags, "run:fail:"+strings.Trim(strings.SplitN(ref.class, " ", 2)[0], "()"))
 	}
+	// every oracle that fires is reported (each property owns different classes)
+	type hit struct{ id, what string }
+	var hits []hit
+	add := func(id, what string) {
+		for _, h := range hits {
+			if h.id == id {
+				return
+			}
+		}
+		hits = append(hits, hit{id, what})
+	}
 	for i, o := range outs {
 		bn := backends[i].name
 		switch {
 		case o.class == "refused":
 			if !strings.Contains(o.msg, "overflow") {
-				rc.Oracle, rc.OracleID = bn+" refuses to compile an accepted program: "+o.msg, "compile-internal-fault"
+				add("compile-internal-fault", bn+" refuses to compile an accepted program: "+o.msg)
 			}
 			rc.Tags = append(rc.Tags, "run:refused:"+bn)
 		case o.class == "ok" && o.wf != "":
-			rc.Oracle, rc.OracleID = bn+": "+o.wf, "wf"
+			add("wf", bn+": "+o.wf)
+		case o.addr != "":
+			add("address-in-text", bn+": a produced text contains a memory address (it cannot depend on the contents only): "+o.addr)
 		case strings.HasPrefix(o.class, "(stuck"):
 			id := "internal-fault"
 			if bn == "vm-callthread" && strings.Contains(o.msg, "over exec limit") {
 				id = "callthread-exec-limit"
 			}
-			rc.Oracle, rc.OracleID = bn+" fails with an internal fault: "+o.msg, id
-		}
-		if rc.Oracle != "" {
-			break
+			add(id, bn+" fails with an internal fault: "+o.msg)
 		}
 	}
-	if rc.Oracle == "" {
-		for i := 1; i < len(outs); i++ {
-			if outs[i].class == "refused" {
-				continue
+	for i := 1; i < len(outs); i++ {
+		if outs[i].class == "refused" {
+			continue
+		}
+		if backends[i].name == "vm-callthread" && strings.Contains(outs[i].msg, "over exec limit") {
+			continue // reported as callthread-exec-limit
+		}
+		if outs[i].line() != ref.line() {
+			id := "backend-divergence"
+			// the sequence of host-function invocations alone (property C06)
+			if strings.Join(callsOnly(outs[i].events), " ") != strings.Join(callsOnly(ref.events), " ") {
+				id = "backend-divergence-calls"
 			}
-			if outs[i].line() != ref.line() {
-				rc.Oracle = fmt.Sprintf("%s and %s differ: %s vs %s", backends[0].name, backends[i].name, short(ref.line()), short(outs[i].line()))
-				rc.OracleID = "backend-divergence"
-				// the sequence of host-function invocations alone (property C06)
-				if strings.Join(callsOnly(outs[i].events), " ") != strings.Join(callsOnly(ref.events), " ") {
-					rc.OracleID = "backend-divergence-calls"
-				}
-				break
-			}
+			add(id, fmt.Sprintf("%s and %s differ: %s vs %s", backends[0].name, backends[i].name, short(ref.line()), short(outs[i].line())))
 		}
 	}
+	out = append(out, rc)
+	for i, h := range hits {
+		if i == 0 {
+			out[len(out)-1].Oracle, out[len(out)-1].OracleID = h.what, h.id
+			continue
+		}
+		out = append(out, Case{Human: rc.Human, Want: "oracle", Oracle: h.what, OracleID: h.id, Tags: []string{"extra-oracle-hit"}})
+	}
+	return out
+}
+
+func evalCasesUnused() {}
+
+func unusedTail(out []Case, rc Case) []Case {
 	return append(out, rc)
 }
 
@@ -470,4 +502,44 @@ func callsOnly(evs []string) []string {
 		}
 	}
 	return xs
+}
+
+var reAddr = regexp.MustCompile(`@0x[0-9a-f]{6,}|recursive-(val|type)`)
+
+// addrInText looks for memory addresses in string results (any depth) and in printed output.
+func addrInText(v *val.Val, printed string) (found string) {
+	defer func() { recover() }()
+	if m := reAddr.FindString(printed); m != "" {
+		return m
+	}
+	var walk func(v *val.Val, depth int) string
+	walk = func(v *val.Val, depth int) string {
+		if v == nil || v.Type == nil || depth > 6 {
+			return ""
+		}
+		switch v.Type.Kind {
+		case types.KStr:
+			return reAddr.FindString(v.Str().V)
+		case types.KList:
+			for _, x := range v.List().V {
+				if r := walk(x, depth+1); r != "" {
+					return r
+				}
+			}
+		case types.KObj:
+			for _, x := range v.Obj().V {
+				if r := walk(x, depth+1); r != "" {
+					return r
+				}
+			}
+		case types.KMap:
+			for _, x := range v.Map().V {
+				if r := walk(x, depth+1); r != "" {
+					return r
+				}
+			}
+		}
+		return ""
+	}
+	return walk(v, 0)
 }
